@@ -47,6 +47,14 @@ CHECKS = {
          "Random cpp directive lines (all kinds, blanks, backslash continuations) inserted at statement boundaries; the "
          "Fortran part of the tree must be unchanged modulo grouping nodes and the directives recovered in order, class, "
          "slot and text.", TRUST, "DESIGN.md 5 C14"),
+ "C13": ("metamorphic property-based testing with generated file systems (split into include files; decoys; missing files)",
+         "Generated programs are split into nested include files written to disk with decoys in later directories; the tree "
+         "must equal the unsplit tree; with files absent the INCLUDE lines must be kept as nodes in place and re-emitted.",
+         TRUST, "DESIGN.md 5 C13"),
+ "C15": ("metamorphic property-based testing (hide statements behind OpenMP conditional sentinels, free and fixed form)",
+         "Random subsets of removable statements hidden behind '!$ ' / 'c$' / '*$' sentinels incl. continuation lines; "
+         "enabled parse == original tree, disabled parse == tree of the program without them, kept comments == hidden lines.",
+         TRUST, "DESIGN.md 5 C15"),
  "C01": ("property-based round-trip (Hypothesis-driven program generator; parse/print/parse fixpoint oracle)",
          "Random programs from a structured Fortran generator are parsed, printed, re-parsed and re-printed; "
          "trees and texts must agree. Exploration is the right level: the domain is an infinite grammar.",
@@ -54,6 +62,6 @@ CHECKS = {
 }
 NOT_APPLICABLE = {
  pid: "check not built yet (work in progress; see DESIGN.md 5)" for pid in
- [ "C09", "C13", "C15", "C16", "C17",
+ [ "C09", "C16", "C17",
   "C19", "C20"]
 }
